@@ -762,3 +762,131 @@ Proof.
   rewrite (model_lib_of name e He) in H. exact (H Hp Hb).
 Qed.
 Print Assumptions C07_model_cli_sort_invalid.
+
+(* ====== ties to the source: BEGIN (written by bin/mkties) ====== *)
+(* The Go functions named here are translated into Gallina from /repo's source on every run
+   (tools/gen/code.go -> Gen/Code/<Eco>.v); Tie/<Eco>.v, Tie/<Eco>Range.v prove each translation equal to the
+   model the theorems above speak about.  If the code changes so that a tie no longer holds,
+   this file no longer checks. *)
+From Verif.Tie Require Alpine Alpm Apache Cargo Composer Conan Cran Debian Gem Gentoo Github Golang Hex Mattermost Npm Nuget Pypi Rpm Semver.
+Definition C07_tie_alpine_compareInt := Verif.Tie.Alpine.tie_alpine_compareInt.
+Print Assumptions C07_tie_alpine_compareInt.
+Definition C07_tie_alpine_Version_String := Verif.Tie.Alpine.tie_alpine_Version_String.
+Print Assumptions C07_tie_alpine_Version_String.
+Definition C07_tie_alpine_compareLetters := Verif.Tie.Alpine.tie_alpine_compareLetters.
+Print Assumptions C07_tie_alpine_compareLetters.
+Definition C07_tie_alpm_string := Verif.Tie.Alpm.tie_alpm_string.
+Print Assumptions C07_tie_alpm_string.
+Definition C07_tie_alpm_compare := Verif.Tie.Alpm.tie_alpm_compare.
+Print Assumptions C07_tie_alpm_compare.
+Definition C07_tie_apache_compareInt := Verif.Tie.Apache.tie_apache_compareInt.
+Print Assumptions C07_tie_apache_compareInt.
+Definition C07_tie_apache_getQualifierPrecedence := Verif.Tie.Apache.tie_apache_getQualifierPrecedence.
+Print Assumptions C07_tie_apache_getQualifierPrecedence.
+Definition C07_tie_apache_compare := Verif.Tie.Apache.tie_apache_compare.
+Print Assumptions C07_tie_apache_compare.
+Definition C07_tie_apache_string := Verif.Tie.Apache.tie_apache_string.
+Print Assumptions C07_tie_apache_string.
+Definition C07_tie_cargo_compareInt := Verif.Tie.Cargo.tie_cargo_compareInt.
+Print Assumptions C07_tie_cargo_compareInt.
+Definition C07_tie_cargo_string := Verif.Tie.Cargo.tie_cargo_string.
+Print Assumptions C07_tie_cargo_string.
+Definition C07_tie_cargo_compare := Verif.Tie.Cargo.tie_cargo_compare.
+Print Assumptions C07_tie_cargo_compare.
+Definition C07_tie_composer_compareInt := Verif.Tie.Composer.tie_composer_compareInt.
+Print Assumptions C07_tie_composer_compareInt.
+Definition C07_tie_composer_compare := Verif.Tie.Composer.tie_composer_compare.
+Print Assumptions C07_tie_composer_compare.
+Definition C07_tie_composer_string := Verif.Tie.Composer.tie_composer_string.
+Print Assumptions C07_tie_composer_string.
+Definition C07_tie_conan_compareInt := Verif.Tie.Conan.tie_conan_compareInt.
+Print Assumptions C07_tie_conan_compareInt.
+Definition C07_tie_conan_Version_String := Verif.Tie.Conan.tie_conan_Version_String.
+Print Assumptions C07_tie_conan_Version_String.
+Definition C07_tie_conan_Version_Compare := Verif.Tie.Conan.tie_conan_Version_Compare.
+Print Assumptions C07_tie_conan_Version_Compare.
+Definition C07_tie_cran_compareInt := Verif.Tie.Cran.tie_cran_compareInt.
+Print Assumptions C07_tie_cran_compareInt.
+Definition C07_tie_cran_string := Verif.Tie.Cran.tie_cran_string.
+Print Assumptions C07_tie_cran_string.
+Definition C07_tie_debian_string := Verif.Tie.Debian.tie_debian_string.
+Print Assumptions C07_tie_debian_string.
+Definition C07_tie_debian_compare := Verif.Tie.Debian.tie_debian_compare.
+Print Assumptions C07_tie_debian_compare.
+Definition C07_tie_gem_compareInt := Verif.Tie.Gem.tie_gem_compareInt.
+Print Assumptions C07_tie_gem_compareInt.
+Definition C07_tie_gem_Version_String := Verif.Tie.Gem.tie_gem_Version_String.
+Print Assumptions C07_tie_gem_Version_String.
+Definition C07_tie_gem_compareSegments := Verif.Tie.Gem.tie_gem_compareSegments.
+Print Assumptions C07_tie_gem_compareSegments.
+Definition C07_tie_gentoo_compareInt := Verif.Tie.Gentoo.tie_gentoo_compareInt.
+Print Assumptions C07_tie_gentoo_compareInt.
+Definition C07_tie_gentoo_string := Verif.Tie.Gentoo.tie_gentoo_string.
+Print Assumptions C07_tie_gentoo_string.
+Definition C07_tie_github_compareInt := Verif.Tie.Github.tie_github_compareInt.
+Print Assumptions C07_tie_github_compareInt.
+Definition C07_tie_github_getQualifierPrecedence := Verif.Tie.Github.tie_github_getQualifierPrecedence.
+Print Assumptions C07_tie_github_getQualifierPrecedence.
+Definition C07_tie_github_compareQualifiers := Verif.Tie.Github.tie_github_compareQualifiers.
+Print Assumptions C07_tie_github_compareQualifiers.
+Definition C07_tie_github_compare := Verif.Tie.Github.tie_github_compare.
+Print Assumptions C07_tie_github_compare.
+Definition C07_tie_github_string := Verif.Tie.Github.tie_github_string.
+Print Assumptions C07_tie_github_string.
+Definition C07_tie_golang_compareInt := Verif.Tie.Golang.tie_golang_compareInt.
+Print Assumptions C07_tie_golang_compareInt.
+Definition C07_tie_golang_Version_String := Verif.Tie.Golang.tie_golang_Version_String.
+Print Assumptions C07_tie_golang_Version_String.
+Definition C07_tie_golang_Version_Compare := Verif.Tie.Golang.tie_golang_Version_Compare.
+Print Assumptions C07_tie_golang_Version_Compare.
+Definition C07_tie_hex_compareInt := Verif.Tie.Hex.tie_hex_compareInt.
+Print Assumptions C07_tie_hex_compareInt.
+Definition C07_tie_hex_string := Verif.Tie.Hex.tie_hex_string.
+Print Assumptions C07_tie_hex_string.
+Definition C07_tie_hex_compare := Verif.Tie.Hex.tie_hex_compare.
+Print Assumptions C07_tie_hex_compare.
+Definition C07_tie_mattermost_compareInt := Verif.Tie.Mattermost.tie_mattermost_compareInt.
+Print Assumptions C07_tie_mattermost_compareInt.
+Definition C07_tie_mattermost_getQualifierPrecedence := Verif.Tie.Mattermost.tie_mattermost_getQualifierPrecedence.
+Print Assumptions C07_tie_mattermost_getQualifierPrecedence.
+Definition C07_tie_mattermost_compare := Verif.Tie.Mattermost.tie_mattermost_compare.
+Print Assumptions C07_tie_mattermost_compare.
+Definition C07_tie_mattermost_string := Verif.Tie.Mattermost.tie_mattermost_string.
+Print Assumptions C07_tie_mattermost_string.
+Definition C07_tie_npm_compareInt := Verif.Tie.Npm.tie_npm_compareInt.
+Print Assumptions C07_tie_npm_compareInt.
+Definition C07_tie_npm_string := Verif.Tie.Npm.tie_npm_string.
+Print Assumptions C07_tie_npm_string.
+Definition C07_tie_npm_compare := Verif.Tie.Npm.tie_npm_compare.
+Print Assumptions C07_tie_npm_compare.
+Definition C07_tie_nuget_compareInt := Verif.Tie.Nuget.tie_nuget_compareInt.
+Print Assumptions C07_tie_nuget_compareInt.
+Definition C07_tie_nuget_string := Verif.Tie.Nuget.tie_nuget_string.
+Print Assumptions C07_tie_nuget_string.
+Definition C07_tie_nuget_compare := Verif.Tie.Nuget.tie_nuget_compare.
+Print Assumptions C07_tie_nuget_compare.
+Definition C07_tie_pypi_compareInt := Verif.Tie.Pypi.tie_pypi_compareInt.
+Print Assumptions C07_tie_pypi_compareInt.
+Definition C07_tie_pypi_Version_String := Verif.Tie.Pypi.tie_pypi_Version_String.
+Print Assumptions C07_tie_pypi_Version_String.
+Definition C07_tie_pypi_normalizePrereleaseType := Verif.Tie.Pypi.tie_pypi_normalizePrereleaseType.
+Print Assumptions C07_tie_pypi_normalizePrereleaseType.
+Definition C07_tie_pypi_comparePrereleases := Verif.Tie.Pypi.tie_pypi_comparePrereleases.
+Print Assumptions C07_tie_pypi_comparePrereleases.
+Definition C07_tie_pypi_comparePostReleases := Verif.Tie.Pypi.tie_pypi_comparePostReleases.
+Print Assumptions C07_tie_pypi_comparePostReleases.
+Definition C07_tie_pypi_compareDevReleases := Verif.Tie.Pypi.tie_pypi_compareDevReleases.
+Print Assumptions C07_tie_pypi_compareDevReleases.
+Definition C07_tie_pypi_Version_Compare := Verif.Tie.Pypi.tie_pypi_Version_Compare.
+Print Assumptions C07_tie_pypi_Version_Compare.
+Definition C07_tie_rpm_string := Verif.Tie.Rpm.tie_rpm_string.
+Print Assumptions C07_tie_rpm_string.
+Definition C07_tie_rpm_compare := Verif.Tie.Rpm.tie_rpm_compare.
+Print Assumptions C07_tie_rpm_compare.
+Definition C07_tie_semver_compareInt := Verif.Tie.Semver.tie_semver_compareInt.
+Print Assumptions C07_tie_semver_compareInt.
+Definition C07_tie_semver_string := Verif.Tie.Semver.tie_semver_string.
+Print Assumptions C07_tie_semver_string.
+Definition C07_tie_semver_compare := Verif.Tie.Semver.tie_semver_compare.
+Print Assumptions C07_tie_semver_compare.
+(* ====== ties to the source: END ====== *)
